@@ -63,6 +63,9 @@ pub enum Op {
     Advance(Adv),
     Poll,
     Drain,
+    /// one poll made through a live StunRequestMut handle of transaction `holder`
+    /// (`handle.mut_agent().poll(now)`), after which the handle is asked for its peer address
+    PollVia { holder: u8 },
     Response {
         id: u8,
         error: bool,
@@ -799,6 +802,10 @@ impl<'h> Interp<'h> {
 
     /// one poll at the current instant; returns true when an event (not WaitUntil) was reported
     fn do_poll(&mut self) -> Result<bool, Disc> {
+        self.do_poll_via(None)
+    }
+
+    fn do_poll_via(&mut self, via: Option<u128>) -> Result<bool, Disc> {
         let now = self.now;
         let at = self.at(now);
         // classification of this poll relative to the model's earliest wake-up
@@ -815,7 +822,33 @@ impl<'h> Interp<'h> {
             }
         }
         let pending = self.model.pending_wait;
-        let ret = self.agent.poll(at);
+        // through a live handle of another (or the same) transaction when asked to
+        let mut handle_peer: Option<(u128, SocketAddr)> = None;
+        let ret = match via.and_then(|h| self.agent.mut_request_transaction(TransactionId::from(h)).map(|hd| (h, hd))) {
+            Some((h, mut hd)) => {
+                let r = hd.mut_agent().poll(at);
+                if hd.agent().request_transaction(TransactionId::from(h)).is_some() {
+                    handle_peer = Some((h, hd.peer_address()));
+                }
+                r
+            }
+            None => self.agent.poll(at),
+        };
+        if let Some((h, p)) = handle_peer {
+            // the handle's transaction is still outstanding: its destination is what it was
+            if let Some(tx) = self.model.outstanding.get(&h) {
+                if tx.dest != p {
+                    return Err(self.d(
+                        "C18",
+                        "c18-peer-address",
+                        format!(
+                            "a live handle of transaction {:#x} reports peer_address() = {} after a poll made through it; the request was sent to {}",
+                            h, p, tx.dest
+                        ),
+                    ));
+                }
+            }
+        }
         let is_event = !matches!(ret, StunAgentPollRet::WaitUntil(_));
         // self-consistency of WaitUntil: earlier polls repeat it, a poll at t gives an event
         if let Some(t) = pending {
@@ -1121,9 +1154,37 @@ impl<'h> Interp<'h> {
         Err(self.d("C05", "c05-poll-never-settles", format!("poll keeps producing events at the same instant ({} polls)", bound)))
     }
 
+    /// an unrelated agent, configured with credentials whose three fields concatenate to the same
+    /// text as the remote credentials of the agent under test but are split differently, validates
+    /// a response of its own just before (anything that remembers derived keys outside the agent,
+    /// keyed too coarsely, would hand the wrong key to the agent under test)
+    fn noise_validate(&mut self, tid: u128) {
+        if !self.interference {
+            return;
+        }
+        let Some(Creds::Long { user, realm, password }) = self.model.remote.clone() else { return };
+        let Some(c) = user.chars().last() else { return };
+        let mut u = user.clone();
+        u.pop();
+        let shifted = Creds::Long { user: u, realm: format!("{}{}", c, realm), password };
+        let at = self.at(self.now);
+        let mut o = StunAgent::builder(self.transport, "10.9.9.9:2".parse().unwrap()).build();
+        o.set_remote_credentials(shifted.to_lib());
+        with_request(tid, 0, 1, 8, |b, _| {
+            let _ = o.send(b, peer(0), at);
+        });
+        let mut buf = refstun::header(refstun::type_encode(2, 1), 0, tid);
+        refstun::push_mi(&mut buf, &shifted.key());
+        refstun::set_len(&mut buf);
+        if let Ok(m) = Message::from_bytes(&buf) {
+            let _ = o.handle_stun(m, peer(0));
+        }
+    }
+
     fn do_response(&mut self, id: u8, error: bool, auth: Auth, from: u8, fp: bool, content: u8) -> Result<(), Disc> {
         let tid = pool_id(id);
         let from = peer(from);
+        self.noise_validate(tid);
         let bytes = response_bytes(tid, error, auth, fp, content);
         let expect_deliver = match self.model.outstanding.get(&tid) {
             None => None,
@@ -1290,6 +1351,13 @@ impl<'h> Interp<'h> {
                         tid, auth, self.model.remote, tx.had_integrity
                     ),
                 );
+                if self.agent.is_validated_peer(from) && !self.model.validated.contains(&from) {
+                    let msg = format!(
+                        "step {} (t={} ms): is_validated_peer({}) became true through a response that fails the integrity check (response auth {:?}): a message that must be dropped never validates its source",
+                        self.step, self.now, from, auth
+                    );
+                    d.also.push(("C15", "c15-spurious".to_string(), msg));
+                }
                 if still && matches!(reply, HandleStunReply::StunResponse(_)) {
                     // delivered, yet the transaction stays outstanding: it can be delivered again, be
                     // retransmitted and time out later (more than one outcome for one request)
@@ -1356,6 +1424,9 @@ impl<'h> Interp<'h> {
                 self.do_poll()?;
             }
             Op::Drain => self.do_drain()?,
+            Op::PollVia { holder } => {
+                self.do_poll_via(Some(pool_id(*holder)))?;
+            }
             Op::Response { id, error, auth, from, fp, content } => self.do_response(*id, *error, *auth, *from, *fp, *content)?,
             Op::Incoming { id, indication, from } => self.do_incoming(*id, *indication, *from)?,
             Op::Cancel { id } => {
@@ -1665,11 +1736,12 @@ pub fn op_strategy(p: Profile) -> BoxedStrategy<Op> {
         last_ms,
     });
     let set_creds = prop_oneof![3 => (0u8..2).prop_map(Op::SetRemoteCreds), 1 => (0u8..3).prop_map(Op::SetLocalCreds)];
+    let poll_via = id().prop_map(|holder| Op::PollVia { holder });
     let advance = adv_strategy().prop_map(Op::Advance);
     match p {
         Profile::Lifecycle => prop_oneof![
             5 => send, 2 => send_cfg, 6 => advance, 5 => Just(Op::Poll), 2 => Just(Op::Drain), 5 => response, 1 => incoming,
-            2 => cancel, 1 => cancel_r, 1 => configure, 1 => set_creds,
+            2 => cancel, 1 => cancel_r, 1 => configure, 1 => set_creds, 1 => poll_via,
         ]
         .boxed(),
         Profile::Timing => prop_oneof![
@@ -1686,7 +1758,7 @@ pub fn op_strategy(p: Profile) -> BoxedStrategy<Op> {
         ]
         .boxed(),
         Profile::Transmit => prop_oneof![
-            7 => send, 3 => send_cfg, 8 => advance, 7 => Just(Op::Poll), 2 => Just(Op::Drain), 2 => response, 1 => cancel_r, 1 => configure,
+            7 => send, 3 => send_cfg, 8 => advance, 7 => Just(Op::Poll), 2 => Just(Op::Drain), 2 => response, 1 => cancel_r, 1 => configure, 2 => poll_via,
         ]
         .boxed(),
     }
@@ -1795,7 +1867,7 @@ pub fn record_run_clock(
                     now = f.get(step).copied().unwrap_or(now);
                 }
             }
-            Op::Poll | Op::Drain => {
+            Op::Poll | Op::Drain | Op::PollVia { .. } => {
                 // always a drain so that the state after the step does not depend on map order
                 let mut settled = false;
                 for _ in 0..64 {
